@@ -535,10 +535,7 @@ def enum_cases(tier):
 def run(ctx):
     from ..ctx import Failure
 
-    # random half first (cheap, finds shapes outside the finite sub-domain), then the enumeration
-    ok = ctx.run_given(cases(), run_case, ctx.n(quick=2500, thorough=40000))
-    if not ok:
-        return
+    # the enumeration first: a budget overrun can then only cut random cases, never the exhaustive claim
     try:
         for i, case in enum_cases(ctx.tier):
             if i % ctx.nworkers != ctx.worker:
@@ -546,6 +543,7 @@ def run(ctx):
             ctx.exec_case(case, run_case)
     except Failure:
         return
+    ctx.run_given(cases(), run_case, ctx.n(quick=2500, thorough=30000))
 
 
 def replay(case, ctx):
